@@ -54,6 +54,67 @@ type Inc struct {
 	Down   []int      `json:"down"` // indices (0-based, per incarnation) of the transmissions that meet a closed port
 	End    string     `json:"end"`  // graceful | crash
 	Phases *PhaseSpec `json:"phases,omitempty"`
+
+	// shutdown configuration and what the server does while the graceful Stop() runs (nil: drain on,
+	// 30 s, server as scripted by Down)
+	Shutdown *ShutdownSpec `json:"shutdown,omitempty"`
+	// Limiter, when set, replaces the wide-open rate limiter of the RADIUS client
+	Limiter *LimiterSpec `json:"limiter,omitempty"`
+	// Realtime runs this incarnation outside a synctest bubble (a server that hangs cannot be
+	// waited for in virtual time); ClientTimeoutMs is the client's per-exchange time-out then
+	Realtime        bool `json:"realtime,omitempty"`
+	ClientTimeoutMs int  `json:"client_timeout_ms,omitempty"`
+	// LateMs: the server answers every request of this incarnation this late (real milliseconds)
+	// and Stop() is held for half as long before it cancels the manager's workers
+	LateMs int `json:"late_ms,omitempty"`
+}
+
+// ShutdownSpec is the configuration a graceful Stop() runs under.
+type ShutdownSpec struct {
+	NoDrain   bool   `json:"no_drain,omitempty"`   // AccountingConfig.DrainOnShutdown = false
+	TimeoutMs int    `json:"timeout_ms,omitempty"` // AccountingConfig.ShutdownTimeout (0: 30 s)
+	Server    string `json:"server,omitempty"`     // transmissions after Stop() was called: "" as scripted | refuse (closed port) | hang (no answer)
+	LingerMs  int    `json:"linger_ms,omitempty"`  // the process lives this long after Stop() has returned
+	Versus    string `json:"versus,omitempty"`     // generator's note: timeout-shorter-than-drain | timeout-longer-than-drain
+}
+
+// LimiterSpec is a radius.RateLimitConfig.
+type LimiterSpec struct {
+	RPS   float64 `json:"rps"`
+	Burst int     `json:"burst"`
+}
+
+// classLabel is label without what does not change the path taken (used in witness classes).
+func (s *ShutdownSpec) classLabel() string {
+	if s == nil {
+		return "drain-on"
+	}
+	c := *s
+	c.LingerMs = 0
+	return c.label()
+}
+
+func (s *ShutdownSpec) label() string {
+	if s == nil {
+		return "drain-on"
+	}
+	l := "drain-on"
+	if s.NoDrain {
+		l = "drain-off"
+	}
+	switch s.Server {
+	case "refuse":
+		l += ",server-refusing"
+	case "hang":
+		l += ",server-hanging"
+	}
+	if s.Versus != "" {
+		l += "," + s.Versus
+	}
+	if s.LingerMs > 0 {
+		l += ",process-lingers"
+	}
+	return l
 }
 
 // PhaseSpec scripts the outage of an incarnation per phase of its single session instead of per
@@ -85,6 +146,7 @@ type ChildSpec struct {
 	Dir        string `json:"dir"`
 	Journal    string `json:"journal"`
 	AcctPort   int    `json:"acct_port"`
+	HangPort   int    `json:"hang_port"` // a UDP port of the parent that never answers
 	Secret     string `json:"secret"`
 	NASID      string `json:"nas_id"`
 	MaxRetries int    `json:"max_retries"`
@@ -104,8 +166,9 @@ type JEv struct {
 	Down bool   `json:"down,omitempty"`
 	Err  string `json:"err,omitempty"`
 	SID  string `json:"sid,omitempty"`
-	VT   string `json:"vt,omitempty"` // virtual time offset
-	Ph   string `json:"ph,omitempty"` // req: phase of the transmission (phase-scripted incarnations)
+	VT   string `json:"vt,omitempty"`   // virtual time offset
+	Ph   string `json:"ph,omitempty"`   // req: phase of the transmission (phase-scripted incarnations)
+	Mode string `json:"mode,omitempty"` // req: "hang" when the transmission went to the port that never answers
 }
 
 // legitimate worst case is about 40: 3 starts, 3 stops, <= 18 interims, <= 6 refusals and their retries
@@ -131,11 +194,22 @@ type childState struct {
 	// phase-scripted outages (spec.Inc.Phases != nil)
 	startThrough bool           // a transmission of the Start has been let through
 	stopAsked    bool           // the script has called StopSession / begun the graceful shutdown
+	shutdown     bool           // the graceful Stop() has been called
+	shutdownAt   time.Time      // ... at this (virtual) time
+	clientTO     time.Duration  // the RADIUS client's per-exchange time-out
+	shutdownTO   time.Duration  // AccountingConfig.ShutdownTimeout
 	phaseN       map[string]int // transmissions seen per phase
 
-	gate     sync.Mutex // held from X:before-send to X:after-send: transmissions are serialised so that the per-request outage script is exact
-	gateHeld bool       // written only by the holder / the goroutine releasing it
+	// gate is held from X:before-send to X:after-send: transmissions are serialised so that the
+	// per-request outage script is exact. A channel made inside the bubble, not a sync.Mutex: the
+	// holder may sleep in the client's rate limiter, and goroutines waiting for a mutex would
+	// keep the bubble's clock from advancing.
+	gate     chan struct{}
+	gateHeld bool          // written only by the holder / the goroutine releasing it
+	drained  chan struct{} // closed when the shutdown:drained marker is passed
 }
+
+func (c *childState) realtime() bool { return c.spec.Realtime || c.spec.Inc.Realtime }
 
 func (c *childState) j(e JEv) {
 	if !c.t0.IsZero() {
@@ -151,15 +225,23 @@ func (c *childState) j(e JEv) {
 func (c *childState) hook(name string) {
 	before := strings.HasSuffix(name, ":before-send")
 	if before {
-		c.gate.Lock()
-		c.gateHeld = true
+		// (while Stop() runs against a hanging server every transmission meets the same fate: no
+		// need to serialise them, and the drain's sends are meant to hang side by side)
+		c.mu.Lock()
+		sd := c.spec.Inc.Shutdown
+		free := c.shutdown && sd != nil && sd.Server == "hang"
+		c.mu.Unlock()
+		if !free {
+			c.gate <- struct{}{}
+			c.gateHeld = true
+		}
 	}
 	c.mu.Lock()
 	occ := c.occ[name]
 	c.occ[name] = occ + 1
 	var n int
 	var dn bool
-	var ph string
+	var ph, mode string
 	if before {
 		n = c.reqN
 		c.reqN++
@@ -182,15 +264,49 @@ func (c *childState) hook(name string) {
 				c.startThrough = true
 			}
 		}
+		if sd := c.spec.Inc.Shutdown; sd != nil && sd.Server != "" && c.shutdown {
+			dn, mode = true, sd.Server
+		}
 	}
 	c.mu.Unlock()
 	if before {
-		if dn {
+		switch {
+		case dn && mode == "hang" && !c.realtime():
+			// Virtual time cannot pass while a datagram is awaited, so a hanging server is played as
+			// one that lets the exchange fail only when the sender would have given up: after the
+			// client's time-out, or for a send of the shutdown drain when the ShutdownTimeout
+			// (the drain's context) runs out, whichever comes first.
+			// Any other send runs under the manager's own context, which Stop() cancels right after
+			// the shutdown:drained marker.
+			d := c.clientTO
+			var cancelled <-chan struct{}
+			if name == "drain:before-send" {
+				c.mu.Lock()
+				if left := c.shutdownAt.Add(c.shutdownTO).Sub(time.Now()); left < d {
+					d = left
+				}
+				c.mu.Unlock()
+			} else {
+				cancelled = c.drained
+			}
+			if d > 0 {
+				tm := time.NewTimer(d)
+				select {
+				case <-tm.C:
+				case <-cancelled:
+					tm.Stop()
+				}
+			}
 			c.client.VerifC08SetServerPort(0, downAcctPort-1)
-		} else {
+		case dn && mode == "hang":
+			c.client.VerifC08SetServerPort(0, c.spec.HangPort-1)
+		case dn:
+			mode = ""
+			c.client.VerifC08SetServerPort(0, downAcctPort-1)
+		default:
 			c.client.VerifC08SetServerPort(0, c.spec.AcctPort-1)
 		}
-		c.j(JEv{Ev: "req", I: n, Down: dn, Name: name, Ph: ph})
+		c.j(JEv{Ev: "req", I: n, Down: dn, Name: name, Ph: ph, Mode: mode})
 		if n >= maxTransmissionsPerIncarnation {
 			// a script of <= 6 steps over <= 3 sessions cannot legitimately need this many
 			// transmissions: something is being re-sent without end. Stop here so that the
@@ -200,6 +316,17 @@ func (c *childState) hook(name string) {
 		}
 	}
 	c.j(JEv{Ev: "point", Name: name, Occ: occ})
+	if name == "shutdown:drained" && occ == 0 {
+		close(c.drained)
+		if ms := c.spec.Inc.LateMs; ms > 0 {
+			// The parent's server answers ms late (real time) in this incarnation. Stop() is held
+			// back here for half of that (a real sleep: virtual time stands still during an
+			// exchange), so that the cancel() that follows this marker lands inside an exchange the
+			// queue processor has begun meanwhile and the server has already accepted.
+			ts := syscall.NsecToTimespec(int64(ms) * 500_000)
+			syscall.Nanosleep(&ts, nil)
+		}
+	}
 	if c.spec.KillOcc >= 0 && name == c.spec.KillPoint && occ == c.spec.KillOcc {
 		c.j(JEv{Ev: "KILL", Name: name, Occ: occ})
 		syscall.Kill(os.Getpid(), syscall.SIGKILL)
@@ -211,7 +338,7 @@ func (c *childState) hook(name string) {
 		// (an after-send marker that is passed without its before-send - a path that queued the
 		// record instead of transmitting it - holds nothing)
 		c.gateHeld = false
-		c.gate.Unlock()
+		<-c.gate
 	}
 }
 
@@ -257,13 +384,32 @@ func stepDelay(k string) time.Duration {
 // runIncarnation executes one incarnation. All time inside is the bubble's virtual time:
 // manager tickers fire at whole seconds after Start, script steps run at x.3/.7/.1/.5/.9 s.
 func runIncarnation(spec *ChildSpec, cs *childState) {
+	cs.gate = make(chan struct{}, 1)
+	cs.drained = make(chan struct{})
 	logger := zap.NewNop()
+	rl := radius.RateLimitConfig{RequestsPerSecond: 1e6, BurstSize: 100000}
+	if l := spec.Inc.Limiter; l != nil {
+		rl = radius.RateLimitConfig{RequestsPerSecond: l.RPS, BurstSize: l.Burst}
+	}
+	clientTimeout := 3 * time.Second
+	if spec.Inc.ClientTimeoutMs > 0 {
+		clientTimeout = time.Duration(spec.Inc.ClientTimeoutMs) * time.Millisecond
+	}
+	sd := spec.Inc.Shutdown
+	if sd == nil {
+		sd = &ShutdownSpec{}
+	}
+	shutdownTimeout := 30 * time.Second
+	if sd.TimeoutMs > 0 {
+		shutdownTimeout = time.Duration(sd.TimeoutMs) * time.Millisecond
+	}
+	cs.clientTO, cs.shutdownTO = clientTimeout, shutdownTimeout
 	client, err := radius.NewClient(radius.ClientConfig{
 		Servers:   []radius.ServerConfig{{Host: "127.0.0.1", Port: spec.AcctPort - 1, Secret: spec.Secret}},
 		NASID:     spec.NASID,
-		Timeout:   3 * time.Second,
+		Timeout:   clientTimeout,
 		Retries:   1,
-		RateLimit: radius.RateLimitConfig{RequestsPerSecond: 1e6, BurstSize: 100000},
+		RateLimit: rl,
 	}, logger)
 	if err != nil {
 		cs.j(JEv{Ev: "harness-error", Err: err.Error()})
@@ -278,8 +424,8 @@ func runIncarnation(spec *ChildSpec, cs *childState) {
 		RetryMaxDelay:          4 * time.Second,
 		QueueSize:              256,
 		PersistPath:            spec.Dir,
-		ShutdownTimeout:        30 * time.Second,
-		DrainOnShutdown:        true,
+		ShutdownTimeout:        shutdownTimeout,
+		DrainOnShutdown:        !sd.NoDrain,
 	}, logger)
 	if err != nil {
 		cs.j(JEv{Ev: "harness-error", Err: err.Error()})
@@ -368,10 +514,17 @@ func runIncarnation(spec *ChildSpec, cs *childState) {
 	default:
 		cs.mu.Lock()
 		cs.stopAsked = true
+		cs.shutdown = true
+		cs.shutdownAt = time.Now()
 		cs.mu.Unlock()
-		cs.j(JEv{Ev: "shutdown-begin"})
+		cs.j(JEv{Ev: "shutdown-begin", Name: spec.Inc.Shutdown.label()})
 		am.Stop()
 		cs.j(JEv{Ev: "shutdown-end"})
+		if sd.LingerMs > 0 {
+			// the process goes on for a while (other subsystems shut down) before it exits
+			time.Sleep(time.Duration(sd.LingerMs) * time.Millisecond)
+			cs.j(JEv{Ev: "linger-end"})
+		}
 	}
 	st := am.GetStats()
 	b, _ := json.Marshal(st)
@@ -405,7 +558,7 @@ func TestC08Child(t *testing.T) {
 	for _, n := range spec.Inc.Down {
 		cs.down[n] = true
 	}
-	if spec.Realtime {
+	if spec.Realtime || spec.Inc.Realtime {
 		runIncarnation(&spec, cs)
 		return
 	}
